@@ -200,7 +200,8 @@ def sig_case_source(spec):
 def f(%s):
   r = [%s]
   r.append(G0)
-  if len(r) > 1 and r[0]:
+  r.append('@UID@')
+  if len(r) > 2 and r[0]:
     r.append('T')
   return r
 ''' % (render_sig(spec), ', '.join(items))
@@ -211,6 +212,7 @@ def _body_lines(spec, n, U, W, L, mutate_b):
   if W:
     lines.append('nonlocal ' + ', '.join('x%d' % j for j in sorted(W)))
   lines.append('r = [%s]' % ', '.join(params_listing(spec)))
+  lines.append("r.append('@UID@')")
   for j in sorted(U - W):
     lines.append('r.append(x%d)' % j)
   for j in sorted(W):
@@ -221,7 +223,7 @@ def _body_lines(spec, n, U, W, L, mutate_b):
     lines.append('r.append(x%d)' % j)
   if mutate_b:
     lines.append('b.append(len(b))')
-  lines.append('if len(r) > 0 and r[0]:')
+  lines.append('if len(r) > 1 and r[0]:')
   lines.append("  r.append('T')")
   lines.append('return r')
   return lines
@@ -255,13 +257,13 @@ def closure_case_source(case):
     out.append(ind + 'inst = C()')
     out.append(ind + 'f = inst.m')
   elif kind == 'lambda':
-    items = params_listing(spec) + ['x%d' % j for j in sorted(U)]
+    items = params_listing(spec) + ["'@UID@'"] + ['x%d' % j for j in sorted(U)]
     out.append(ind + 'f = lambda %s: [%s]' % (render_sig(spec), ', '.join(items)))
   if kind == 'lambda':
-    out.append(ind + 'sib = lambda a: [%s]' % ', '.join(['a'] + ['x%d' % j for j in sorted(S)]))
+    out.append(ind + 'sib = lambda a: [%s]' % ', '.join(['a', "'@UID@'"] + ['x%d' % j for j in sorted(S)]))
   else:
     out.append(ind + 'def sib(a):')
-    out.append(ind * 2 + 'r = [a]')
+    out.append(ind * 2 + "r = [a, '@UID@']")
     for j in sorted(S):
       out.append(ind * 2 + 'r.append(x%d)' % j)
     out.append(ind * 2 + 'return r')
@@ -289,7 +291,7 @@ def outer(conv, order):
   for i in range(3):
     k = i * 10
     def f(a, b=tick('d', ['loop', i]), *, c=tick('d', ('kw', i))):
-      r = [a, b, c, k]
+      r = [a, b, c, k, '@UID@']
       b.append(a)
       if a:
         r.append('T')
@@ -300,7 +302,7 @@ def outer(conv, order):
       nonlocal k
       k = k + a
       c[a] = k
-      return [a, va, sorted(c.items()), k, u]
+      return [a, va, sorted(c.items()), k, u, '@UID@']
     return h
   hs = [mk(j, 'u%d' % j) for j in range(3)]
   def setk(v):
@@ -832,6 +834,9 @@ def gen_cases(seed, tier, families):
   cases = []
 
   def add(family, sig, desc, src, **kw):
+    # every case gets its own constant in the converted bodies: code objects that compare EQUAL (CPython ignores
+    # co_filename and the text of default expressions) share a cache entry, which is C10's subject, not C09's
+    src = src.replace('@UID@', 'u%d' % len(cases))
     c = dict(idx=len(cases), family=family, sig=sig, desc=desc, src=src,
              seed=rng.randrange(1 << 30))
     c.update(kw)
